@@ -410,11 +410,6 @@ def run(rep, db, tier, seed):
         rep.add(Obligation('recv returns the front', 'violated' if viol else 'discharged', paths=n))
     except (Unmodelled, ImportError) as u:
         rep.add(Obligation('recv returns the front', 'inconclusive', str(u)[:600]))
-    try:
-        from props import c16_rpc
-        c16_rpc.run(rep, db, tier)
-    except Exception as u:
-        rep.add(Obligation('consensus RPC handler back-pressure', 'inconclusive', f'{type(u).__name__}: {u}'[:600]))
     cfgs = [(4, ('ReplicaCommit', 'ReplicaTimeout'), True), (5, ('ReplicaCommit',), False)] if tier == 'quick' else [(5, ('ReplicaCommit', 'ReplicaTimeout'), True), (6, ('ReplicaCommit',), False)]
     for L, kinds_, sym_sig in cfgs:
         t0 = time.time()
